@@ -16,6 +16,8 @@ func main() {
 		runOps(os.Args[2], os.Stdout)
 	case "scan":
 		scanMain(os.Args[2:])
+	case "wotsscan":
+		wotsScanMain(os.Args[2:])
 	case "gen":
 		genMain(os.Args[2:])
 	case "cold":
